@@ -24,27 +24,44 @@ AlphaNum    == {"1", "0", ".", "e", "E", "x", "'", "s", "@", "-", "+", " ", "_",
 AlphaWs     == {"x", " ", TAB, CR, NL, "|", "!", ";", "'", "n", "&", "s"}                \* blanks, line ends, 'n'
 AlphaKw     == {"a", "i", "s", "t", "n", "o", "'", "A", "I", "%", " ", NL, "r", "e"}     \* short keywords in any case
 
+AlphaAll    == AlphaCore \cup AlphaMulti \cup AlphaUni \cup AlphaNum \cup AlphaWs \cup AlphaKw \cup {"&", "*", "/", ">", "!", "?", ":", "[", "{"}
+
+(* token soup: one fragment per token class the parser dispatches on (each ends in a blank unless it is a suffix) *)
+SoupFull == {"put ", "let ", "say ", "shout ", "listen ", "if ", "else ", "while ", "until ", "build ", "knock ", "up ", "down ",
+             "cut ", "join ", "cast ", "turn ", "round ", "rock ", "roll ", "like ", "break ", "continue ", "take ", "top ",
+             "give ", "return ", "back ", "takes ", "taking ", "into ", "be ", "with ", "to ", "at ", "is ", "isnt ", "says ",
+             "not ", "and ", "or ", "nor ", "as ", "than ", "bigger ", "big ", "plus ", "minus ", "times ", "over ",
+             NL, ", ", ". ", "& ", "'n' ", "'s ", "'re ", "- ", "< ", ">= ",
+             "foo ", "Bar ", "the ", "it ", "5 ", "\"s\" ", "true ", "mysterious ", "empty ", "ab1 ", "\"open ", "(c) ", "_ "}
+SoupCore == {"put ", "let ", "say ", "listen ", "if ", "else ", "while ", "build ", "up ", "cut ", "turn ", "rock ", "roll ",
+             "like ", "break ", "take ", "give ", "back ", "takes ", "taking ", "into ", "be ", "with ", "to ", "at ", "is ",
+             "says ", "not ", "and ", "as ", "than ", "bigger ", "big ", "plus ", "- ", NL, ", ", ". ", "'s ",
+             "foo ", "Bar ", "the ", "it ", "5 ", "\"s\" ", "true ", "ab1 "}
+SoupTiny == {"put ", "let ", "if ", "else ", "while ", "rock ", "roll ", "taking ", "takes ", "into ", "be ", "with ", "at ", "is ",
+             "says ", "- ", NL, ", ", "'s ", "foo ", "Bar ", "the ", "it ", "5 ", "and ", "like ", "give ", "back "}
+
 PrefixNone  == ""
 PrefixQNL   == "\"" \o NL                      \* an open string literal that already spans a line break
 PrefixCNL   == "x (" \o NL \o NL               \* an open comment spanning two line breaks after a word
 PrefixSay   == "say "
 
-VARIABLES src, phase, i, line, ls, staged, toks, steps
-vars == <<src, phase, i, line, ls, staged, toks, steps>>
+VARIABLES src, phase, i, line, ls, staged, toks, steps, ngen
+vars == <<src, phase, i, line, ls, staged, toks, steps, ngen>>
 
 Init == /\ src = Prefix /\ phase = "gen" /\ i = 1 /\ line = 1 /\ ls = 0
-        /\ staged = <<>> /\ toks = <<>> /\ steps = 0
+        /\ staged = <<>> /\ toks = <<>> /\ steps = 0 /\ ngen = 0
 
-Gen == /\ phase = "gen" /\ Len(src) < Len(Prefix) + MaxLen
-       /\ \E c \in Alphabet : src' = src \o c
+Gen == /\ phase = "gen" /\ ngen < MaxLen
+       /\ \E c \in Alphabet : src' = src \o c             \* a symbol, or a whole fragment in the soup alphabets
+       /\ ngen' = ngen + 1
        /\ UNCHANGED <<phase, i, line, ls, staged, toks, steps>>
 
 Start == /\ phase = "gen" /\ phase' = "lex"
-         /\ UNCHANGED <<src, i, line, ls, staged, toks, steps>>
+         /\ UNCHANGED <<src, i, line, ls, staged, toks, steps, ngen>>
 
 EmitStaged == /\ phase = "lex" /\ staged # <<>>
               /\ toks' = toks \o staged /\ staged' = <<>> /\ steps' = steps + 1
-              /\ UNCHANGED <<src, phase, i, line, ls>>
+              /\ UNCHANGED <<src, phase, i, line, ls, ngen>>
 
 Arm(name) ==
   /\ phase = "lex" /\ staged = <<>>
@@ -55,7 +72,7 @@ Arm(name) ==
      /\ i' = r.ni /\ line' = r.line /\ ls' = r.ls
      /\ phase' = IF name = "Finish" THEN "done" ELSE "lex"
      /\ steps' = steps + 1
-     /\ UNCHANGED src
+     /\ UNCHANGED <<src, ngen>>
 
 Finish           == Arm("Finish")
 LexNewline       == Arm("LexNewline")
@@ -90,7 +107,7 @@ Step == /\ phase = "lex" /\ staged = <<>>
            /\ i' = r.ni /\ line' = r.line /\ ls' = r.ls
            /\ phase' = IF r.arm = "Finish" THEN "done" ELSE "lex"
            /\ steps' = steps + 1
-           /\ UNCHANGED src
+           /\ UNCHANGED <<src, ngen>>
 NextFast == Gen \/ Start \/ EmitStaged \/ Step
 SpecFast == Init /\ [][NextFast]_vars
 
